@@ -1229,6 +1229,19 @@ def _merge_guard_chain(stmts: list[S]) -> list[S]:
             elif _ends_in_exit(then) and _ends_in_exit(tail):
                 tail = guard(mk_not(c), tuple(tail), list(then)) if _negative(c) else guard(c, then, tail)
                 continue
+            if orelse and not _ends_in_exit(then) and not _ends_in_exit(orelse):
+                # both arms end with the same statements: those come once, after the conditional
+                k = 0
+                while k < len(then) and k < len(orelse) and then[len(then) - 1 - k] == orelse[len(orelse) - 1 - k]:
+                    k += 1
+                if k:
+                    a, b, common = tuple(then[:len(then) - k]), tuple(orelse[:len(orelse) - k]), list(then[len(then) - k:])
+                    if a or b:
+                        head = [_flat_if(mk_if(c, a, b))]
+                    else:
+                        head = [("expr", c)] if _has_effectful_call(c) else []
+                    tail = head + common + tail
+                    continue
         tail = [st] + tail
     out: list[S] = []
     for st in tail:
